@@ -337,13 +337,51 @@ def bake_sweep(ck, dialect, n):
                                                  "unbaked": sum(1 for r in rows if not r.startswith("baked"))}
 
 
+def glslfold_tie(ck):
+    """Tie of Naga.Model.GlslFold (Props/GlslFold.fold_sound) with the real GLSL writer: on every constant-fold probe the
+    writer's decision (literal or expression) and the literal's value, read from the emitted text by the independent parser,
+    must be the model's."""
+    out = ck.harness("cglslfold", 0, timeout=600, subdir="cglslfold")
+    if out is None:
+        return
+    cases = os.path.join(out, "cases.txt")
+    if not os.path.exists(cases):
+        ck.tie_broken("no-cases", "the harness produced no constant-fold case", "")
+        return
+    if not ck.run_driver(["glslfold"], cases, os.path.join(out, "model.txt")):
+        return
+    cs = common.read_lines(cases)
+    impl = common.read_lines(os.path.join(out, "impl.txt"))
+    model = common.read_lines(os.path.join(out, "model.txt"))
+    srcs = common.read_lines(os.path.join(out, "src.txt"))
+    texts = common.read_lines(os.path.join(out, "text.txt"))
+    stat = {"agree": 0, "differ": 0, "folded": 0}
+    for c, a, b, s, t in zip(cs, impl, model, srcs, texts):
+        ck.case("glslfold" + c, nontrivial=True)
+        if a.startswith("fold"):
+            stat["folded"] += 1
+        if a == b:
+            stat["agree"] += 1
+            continue
+        stat["differ"] += 1
+        if stat["differ"] <= 3:
+            ck.violation({"kind": "glsl-constant-folding-differs-from-model", "case": c, "implementation": a, "model": b,
+                          "wgsl": unq(s[1:-1]), "emitted": unq(t[1:-1])[:4000],
+                          "how": "the GLSL writer folds (or does not fold) this integer expression differently from Naga.Model.GlslFold, "
+                                 "whose folding is proved to yield the WGSL value (fold_sound): the theorem no longer speaks about this "
+                                 "writer; the executed constant-fold probes (cprobesem) are the search for an input on which it matters"},
+                         found_input=False)
+    ck.extra["glsl_fold_tie"] = stat
+
+
 def run(ck, dialect, prop_module, glsl_ub_excluded=False):
     ck.trusted = ["Lean kernel", "axioms: propext, Classical.choice, Quot.sound",
                   "L1 semantics: Sem.Ops / Sem.Wgsl (WGSL), Sem.COps / Sem.CLike (target language)",
                   "Go harness: generator, cparse (independent parser of the emitted text), probes"]
     if not ck.build_harness():
         return
-    proved = regenerate_and_prove(ck, [prop_module] + (["Naga.Props.CFlow"] if dialect == "msl" else ["Naga.Props.CFlowF"]) + ["Naga.Props.Bake"])
+    proved = regenerate_and_prove(ck, [prop_module] + (["Naga.Props.CFlow"] if dialect == "msl" else ["Naga.Props.CFlowF"]) + ["Naga.Props.Bake"]
+                                  + (["Naga.Props.GlslFold"] if dialect == "glsl" else []))
     if not ck.driver():
         return
     n = N.get(ck.tier, N["quick"])
@@ -358,6 +396,8 @@ def run(ck, dialect, prop_module, glsl_ub_excluded=False):
         # exhaustive small scope: every statement tree of at most 3 (thorough: 4) nodes
         flow_sweep(ck, dialect, 0, enum_size={"quick": 3, "thorough": 4}.get(ck.tier, 3))
     bake_sweep(ck, dialect, {"quick": 200, "thorough": 5000}.get(ck.tier, 200))
+    if dialect == "glsl":
+        glslfold_tie(ck)
     sweep(ck, dialect, "csem", n, glsl_ub_excluded)
     if ck.tier == "thorough":
         ck.leanchecker(["Naga.Tie.CEmit", prop_module])
